@@ -113,6 +113,20 @@ Theorem C16_strict_total_refuted :
   F12_class [43;9;42] = true /\ parse_ref_s false [43;9;42] = Panicked /\ parse_ref [43;9;42] = Err.
 Proof. vm_compute. repeat split; reflexivity. Qed.
 
+(* F164: under the shape of rewrite_ast_clause that hoists a single child with any occur,
+   "(a OR a) b" becomes (?a *b): with conjunction by default a document with b but without a matches,
+   although the documented meaning (a AND b) excludes it; hoisting only negations keeps the meaning *)
+Theorem C16_repeated_operand_refuted :
+  F164_ast (Clause [(None, Clause [(Some Should, Leaf (LLit None [97] DNone 0 false)); (Some Should, Leaf (LLit None [97] DNone 0 false))]);
+                    (None, Leaf (LLit None [98] DNone 0 false))]) = true
+  /\ rewrite_ast_s false (Clause [(None, Clause [(Some Should, Leaf (LLit None [97] DNone 0 false)); (Some Should, Leaf (LLit None [97] DNone 0 false))]);
+                                  (None, Leaf (LLit None [98] DNone 0 false))])
+     = Clause [(Some Should, Leaf (LLit None [97] DNone 0 false)); (None, Leaf (LLit None [98] DNone 0 false))]
+  /\ rewrite_ast_s true (Clause [(None, Clause [(Some Should, Leaf (LLit None [97] DNone 0 false)); (Some Should, Leaf (LLit None [97] DNone 0 false))]);
+                                 (None, Leaf (LLit None [98] DNone 0 false))])
+     = Clause [(None, Leaf (LLit None [97] DNone 0 false)); (None, Leaf (LLit None [98] DNone 0 false))].
+Proof. vm_compute. repeat split; reflexivity. Qed.
+
 (* F160: "hello<LF>body:y" is read as one field name "hello<LF>body" *)
 Theorem C16_whitespace_separates_refuted :
   F160_class [104;101;108;108;111;10;98;111;100;121;58;121] = true /\
@@ -131,4 +145,5 @@ Print Assumptions C16_model_fuel_adequate_on_fragment.
 Print Assumptions C16_phrase_matches_own_text.
 Print Assumptions C16_phrase_consecutive_offsets_miss.
 Print Assumptions C16_strict_total_refuted.
+Print Assumptions C16_repeated_operand_refuted.
 Print Assumptions C16_whitespace_separates_refuted.
